@@ -101,7 +101,11 @@ func runC06(c *Ctx) {
 				copy(ek[:], encB)
 				spk, _ := d.SigningPublicKey()
 				var leases []lease.Lease
-				for j := 0; j < genCount(r, 16); j++ {
+				nLeases := genCount(r, 16)
+				if i < 3 {
+					nLeases = []int{16, 0, 1}[i] // the ends of the 0..16 range, every run
+				}
+				for j := 0; j < nLeases; j++ {
 					var l lease.Lease
 					copy(l[:], genLease(r))
 					leases = append(leases, l)
@@ -212,7 +216,7 @@ func runC06(c *Ctx) {
 				}
 				keys := []lease_set2.EncryptionKey{{KeyType: 4, KeyLen: 32, KeyData: r.Bytes(32)}}
 				var ls []lease.Lease2
-				for j := 0; j < 1+r.Intn(16); j++ {
+				for j, nL2 := 0, 1+r.Intn(16); j < nL2; j++ {
 					var l lease.Lease2
 					copy(l[:], genLease2(r))
 					ls = append(ls, l)
